@@ -727,7 +727,7 @@ class AnyEqual(Kind):
     tags = ('c08', 'cmp')
 
     def plan(self, rng, pool):
-        n = count(rng, 2, 4)
+        n = min(count(rng, 2, 4), 10)          # (all-pairs comparators: quadratic in n)
         a, w = pool.any(1, 8)
         ins = [a] + [pool.pick(w)[0] for _ in range(n - 1)]
         return {}, ins, [1]
